@@ -34,7 +34,7 @@ class Module:
         self.normalised_matches = normalise_match(self.tree)
         self.expanded_lookups = expand_table_lookups(self.tree)
         self.unrolled_early = unroll_table_searches(self.tree)  # helpers that search a literal table become loop-free
-        self.inlined_calls = inline_helpers(self.tree)
+        self.inlined_calls = inline_helpers(self.tree, relpath=relpath)
         self.normalised_loops = normalise_loops(self.tree) + unroll_table_searches(self.tree)
         self.unrolled_constant_loops = unroll_constant_loops(self.tree)
         self.folded_lists = fold_list_building(self.tree)
